@@ -3,7 +3,7 @@
 (change / trigger descriptions are taken from the seeder's notes.txt)."""
 import sys, os, json, shutil
 pid, v, result = sys.argv[1:4]
-src = "/tmp/seed/%s/seed_out/%s" % (pid, v)
+src = "%s/%s/seed_out/%s" % (os.environ.get("SEED_ROOT", "/tmp/seed3"), pid, v)
 dst = "/verif/seeded/%s-%s" % (pid, v)
 os.makedirs(dst, exist_ok=True)
 for f in ("patch.diff", "demo.py", "notes.txt"):
